@@ -16,7 +16,8 @@ try:
     r = subprocess.run(['git', '-C', repo, 'apply', patch], stdout=subprocess.PIPE, stderr=subprocess.STDOUT)
     if r.returncode != 0:
         print('PATCH DOES NOT APPLY:', r.stdout.decode()[:500]); sys.exit(3)
-    subprocess.check_call(['rsync', '-a', '--exclude', '.git', '--exclude', 'replays', '--exclude', 'seeded', '/verif/', verif + '/'])
+    rc_ = subprocess.call(['rsync', '-a', '--exclude', '.git', '--exclude', 'replays', '--exclude', 'seeded', '--exclude', '*.tmp.*', '/verif/', verif + '/'], stderr=subprocess.DEVNULL)
+    assert rc_ in (0, 24), rc_
     env = dict(os.environ, VERIF_REPO=repo)
     for p in props:
         r = subprocess.run(['./check', p, '--tier', tier], cwd=verif, env=env, stdout=subprocess.PIPE, stderr=subprocess.PIPE, timeout=3600)
